@@ -210,7 +210,11 @@ func (e *Exec) binop(op token.Token, t types.Type, x, y Value) Value {
 	case float64:
 		yf, ok := y.(float64)
 		if !ok {
-			e.unsupported("float arithmetic on symbolic operand")
+			switch op {
+			case token.ADD, token.SUB, token.MUL, token.QUO:
+				return FloatOf{}
+			}
+			e.unsupported("float comparison with symbolic operand")
 		}
 		switch op {
 		case token.ADD:
@@ -231,7 +235,11 @@ func (e *Exec) binop(op token.Token, t types.Type, x, y Value) Value {
 			return e.c.Bool(x >= yf)
 		}
 	case FloatOf:
-		e.unsupported("float arithmetic on float64(symbolic integer)")
+		switch op {
+		case token.ADD, token.SUB, token.MUL, token.QUO:
+			return FloatOf{} // unknown float: may only be passed around
+		}
+		e.unsupported("float comparison on float64(symbolic integer)")
 	case Str:
 		ys := y.(Str)
 		switch op {
